@@ -73,10 +73,12 @@ def run_proc_group(task):
     acc = e1.Accum()
     t0 = time.monotonic()
     rng = random.Random(f"{seed}:{PROP}:proc:{group}")
-    cfgs = fleet.draw_configs(rng, 4)
-    ws = [fleet.Worker(c["hashseed"], c["prelude"], f"p{group}.{i}")
+    cfgs = fleet.draw_configs(rng, 4, optimize_all=(group % 3 == 1))
+    ws = [fleet.Worker.from_config(c, f"p{group}.{i}")
           for i, c in enumerate(cfgs)]
     acc.extra["process_actor_interpreters"] += len(ws)
+    if cfgs[0].get("optimize"):
+        acc.extra["process_actor_groups_running_python_-O"] += 1
     try:
         for i in range(nprogs):
             recipe = mrecipe.gen_recipe(
@@ -119,7 +121,7 @@ def minimise_process(v, target, budget_s=120.0):
     from simkit import fleet, mrecipe
     case = v["case"]
     cfgs = case["configs"]
-    ws = [fleet.Worker(c["hashseed"], c["prelude"], f"min{i}")
+    ws = [fleet.Worker.from_config(c, f"min{i}")
           for i, c in enumerate(cfgs)]
     t0 = time.monotonic()
     recipe = case["recipe"]
@@ -150,7 +152,7 @@ def replay_process(doc):
     import random
     from simkit import fleet
     cfgs = doc["configs"]
-    ws = [fleet.Worker(c["hashseed"], c["prelude"], f"rp{i}")
+    ws = [fleet.Worker.from_config(c, f"rp{i}")
           for i, c in enumerate(cfgs)]
     try:
         v, _s, _st = _proc_run_one(ws, doc["recipe"], random.Random("min"))
